@@ -321,6 +321,14 @@ def p_missing_fh(c):
         f = FORECASTERS[name]()
         out += expect_accepted(sut(FORECASTERS[name]().fit, y.copy(), None, c["fh"]), "fit:%s" % name)
         out += expect_rejected(sut(f.fit, y.copy()), "missing_horizon:fit:%s" % name, f)
+        # fitting an object again starts afresh: the horizon of an earlier fit does not stand in
+        # for a missing one, and another valid horizon is as good as the first
+        y2 = gen.build_series([float(v) * 1.5 + 2.0 for v in y.to_numpy()[::-1]], int(y.index[0]) + 3, c["index_kind"])
+        g = FORECASTERS[name]().fit(y.copy(), None, c["fh"])
+        other = [h + 1 for h in c["fh"]]
+        out += expect_accepted(sut(FORECASTERS[name]().fit(y.copy(), None, c["fh"]).fit, y2.copy(), None, other), "fit_again_with_another_horizon:%s" % name)
+        r = sut(g.fit, y2.copy())
+        out += expect_rejected(r, "missing_horizon:second_fit:%s" % name)
     else:
         f = FORECASTERS[name]().fit(y.copy())
         out += expect_accepted(sut(FORECASTERS[name]().fit(y.copy()).predict, c["fh"]), "predict:%s" % name)
